@@ -77,8 +77,6 @@ func main() {
 		os.Exit(check(&c))
 	case "run":
 		os.Exit(runOnly(&c))
-	case "scan":
-		os.Exit(scanGlobals(&c))
 	default:
 		fmt.Fprintln(os.Stderr, "unknown command", cmd)
 		os.Exit(2)
